@@ -137,8 +137,12 @@ func c17More() []c17inst {
 			gen  func() []float64
 			same bool
 		}{
-			{"VV", func(d ref.DT) (tensor.Tensor, error) { return binFns[c.op](c17Build(d, z1a, "C"), c17Build(d, z1b, "C")) }, func() []float64 { return b2(c.f, z1a, z1b) }, false},
-			{"VV-iter", func(d ref.DT) (tensor.Tensor, error) { return binFns[c.op](c17Build(d, z1a, "T"), c17Build(d, z1b, "SS")) }, func() []float64 { return b2(c.f, z1a, z1b) }, false},
+			{"VV", func(d ref.DT) (tensor.Tensor, error) {
+				return binFns[c.op](c17Build(d, z1a, "C"), c17Build(d, z1b, "C"))
+			}, func() []float64 { return b2(c.f, z1a, z1b) }, false},
+			{"VV-iter", func(d ref.DT) (tensor.Tensor, error) {
+				return binFns[c.op](c17Build(d, z1a, "T"), c17Build(d, z1b, "SS"))
+			}, func() []float64 { return b2(c.f, z1a, z1b) }, false},
 			{"VS", func(d ref.DT) (tensor.Tensor, error) { return binFns[c.op](c17Build(d, z1a, "C"), d.Code(1)) }, func() []float64 { return b2(c.f, z1a, one) }, false},
 			{"SV", func(d ref.DT) (tensor.Tensor, error) { return binFns[c.op](d.Code(1), c17Build(d, z1a, "C")) }, func() []float64 { return b2(c.f, one, z1a) }, false},
 			{"SV-iter", func(d ref.DT) (tensor.Tensor, error) { return binFns[c.op](d.Code(1), c17Build(d, z1a, "S")) }, func() []float64 { return b2(c.f, one, z1a) }, false},
@@ -148,11 +152,19 @@ func c17More() []c17inst {
 			{"same-iter", func(d ref.DT) (tensor.Tensor, error) {
 				return binFns[c.op](c17Build(d, z1a, "T"), c17Build(d, z1b, "S"), tensor.AsSameType())
 			}, func() []float64 { return b2(c.f, z1a, z1b) }, true},
-			{"same-SV", func(d ref.DT) (tensor.Tensor, error) { return binFns[c.op](d.Code(1), c17Build(d, z1a, "C"), tensor.AsSameType()) }, func() []float64 { return b2(c.f, one, z1a) }, true},
-			{"same-VS", func(d ref.DT) (tensor.Tensor, error) { return binFns[c.op](c17Build(d, z1a, "C"), d.Code(1), tensor.AsSameType()) }, func() []float64 { return b2(c.f, z1a, one) }, true},
+			{"same-SV", func(d ref.DT) (tensor.Tensor, error) {
+				return binFns[c.op](d.Code(1), c17Build(d, z1a, "C"), tensor.AsSameType())
+			}, func() []float64 { return b2(c.f, one, z1a) }, true},
+			{"same-VS", func(d ref.DT) (tensor.Tensor, error) {
+				return binFns[c.op](c17Build(d, z1a, "C"), d.Code(1), tensor.AsSameType())
+			}, func() []float64 { return b2(c.f, z1a, one) }, true},
 			{"VS-iter", func(d ref.DT) (tensor.Tensor, error) { return binFns[c.op](c17Build(d, z1a, "T"), d.Code(1)) }, func() []float64 { return b2(c.f, z1a, one) }, false},
-			{"same-SV-iter", func(d ref.DT) (tensor.Tensor, error) { return binFns[c.op](d.Code(1), c17Build(d, z1a, "S"), tensor.AsSameType()) }, func() []float64 { return b2(c.f, one, z1a) }, true},
-			{"same-VS-iter", func(d ref.DT) (tensor.Tensor, error) { return binFns[c.op](c17Build(d, z1a, "SS"), d.Code(1), tensor.AsSameType()) }, func() []float64 { return b2(c.f, z1a, one) }, true},
+			{"same-SV-iter", func(d ref.DT) (tensor.Tensor, error) {
+				return binFns[c.op](d.Code(1), c17Build(d, z1a, "S"), tensor.AsSameType())
+			}, func() []float64 { return b2(c.f, one, z1a) }, true},
+			{"same-VS-iter", func(d ref.DT) (tensor.Tensor, error) {
+				return binFns[c.op](c17Build(d, z1a, "SS"), d.Code(1), tensor.AsSameType())
+			}, func() []float64 { return b2(c.f, z1a, one) }, true},
 		} {
 			v := v
 			dts := ref.ALL18
